@@ -18,7 +18,6 @@ package ranges
 
 import (
 	"fmt"
-	"math"
 	"strconv"
 	"strings"
 )
@@ -150,9 +149,17 @@ func (r *InclusiveRange) Len() int {
 		return r.cachedLen
 	}
 
-	// Offset by one to include the end value
-	diff := math.Abs(float64(r.end-r.start)) + 1
-	r.cachedLen = int(math.Ceil(diff / math.Abs(float64(r.step))))
+	// Offset by one to include the end value.
+	// Integer arithmetic: a float64 cannot hold every span beyond 2^53.
+	diff := r.end - r.start
+	if diff < 0 {
+		diff = -diff
+	}
+	step := r.step
+	if step < 0 {
+		step = -step
+	}
+	r.cachedLen = diff/step + 1
 	r.isLenCached = true
 	return r.cachedLen
 }
